@@ -37,7 +37,7 @@ func Run(prop string, c Case, r *pbt.Rec) error {
 	}
 	tornManifest := pbt.Open("C09-manifest-batch-torn") || pbt.Open("C11-manifest-batch-torn")
 	for idx, im := range res.Images {
-		if tornManifest && im.Torn && containsStr(im.Class, "manifest:") {
+		if tornManifest && im.Torn && containsStr(im.Class, "manifest:") && ListedTornBatch(im.TornBatch) {
 			// listed finding: a multi-edit manifest batch is not atomic across a crash
 			r.Excluded(1)
 			r.Label("img:torn-manifest-batch(listed)")
@@ -57,6 +57,9 @@ func Run(prop string, c Case, r *pbt.Rec) error {
 			return v.Err
 		}
 		r.Label("img:" + im.Class)
+		if im.TornBatch != "" {
+			r.Label("img:torn-manifest-batch-judged(" + im.TornBatch + ")")
+		}
 		if v.Excluded {
 			r.Excluded(1)
 			r.Label("img:partial-batch(listed)")
@@ -83,7 +86,9 @@ func Run(prop string, c Case, r *pbt.Rec) error {
 				nt = true
 			}
 		}
-		if prop == "C11" && postEvery > 0 && idx%postEvery == 0 {
+		// torn manifest batches always get the maintenance schedule: which other images do depends
+		// on the image count, and a committed replay must not depend on that
+		if prop == "C11" && postEvery > 0 && (idx%postEvery == 0 || im.TornBatch != "") {
 			db2, perr := PostMaintenance(res, im, db, r)
 			db = db2
 			if perr != nil {
